@@ -19,12 +19,12 @@ import (
 // inMsg is one message handed to NextReader.
 type inMsg struct {
 	mtype   int
-	data    []byte // tag + payload
+	data    []byte                  // tag + payload
 	chunk   func(pos, want int) int // how many bytes (>=0) to return for a Read of want bytes at offset pos
 	eofWith bool                    // return io.EOF together with the last data bytes
 	errAt   int                     // >=0: return errVal once pos reaches errAt
 	errVal  error
-	parkAt  int // >=0: block on resume once pos reaches parkAt (once)
+	parkAt  int   // >=0: block on resume once pos reaches parkAt (once)
 	nextErr error // NextReader itself fails with this error
 }
 
@@ -71,14 +71,18 @@ type simAddr string
 func (a simAddr) Network() string { return "sim" }
 func (a simAddr) String() string  { return string(a) }
 
-func (c *simConn) RemoteAddr() net.Addr        { return simAddr(c.name) }
-func (c *simConn) RemoteAddrString() string    { return c.name }
-func (c *simConn) UnderlyingConn() net.Conn    { return nil }
-func (c *simConn) SetReadLimit(n int64)        { c.readLim = n }
-func (c *simConn) isWaiting() bool             { c.mu.Lock(); defer c.mu.Unlock(); return c.waiting && !c.closed }
-func (c *simConn) isClosed() bool              { c.mu.Lock(); defer c.mu.Unlock(); return c.closed }
-func (c *simConn) lastStats() *readStats       { c.mu.Lock(); defer c.mu.Unlock(); return c.last }
-func (c *simConn) isParked() bool              { c.mu.Lock(); defer c.mu.Unlock(); return c.cur != nil && c.cur.st.parked }
+func (c *simConn) RemoteAddr() net.Addr     { return simAddr(c.name) }
+func (c *simConn) RemoteAddrString() string { return c.name }
+func (c *simConn) UnderlyingConn() net.Conn { return nil }
+func (c *simConn) SetReadLimit(n int64)     { c.readLim = n }
+func (c *simConn) isWaiting() bool          { c.mu.Lock(); defer c.mu.Unlock(); return c.waiting && !c.closed }
+func (c *simConn) isClosed() bool           { c.mu.Lock(); defer c.mu.Unlock(); return c.closed }
+func (c *simConn) lastStats() *readStats    { c.mu.Lock(); defer c.mu.Unlock(); return c.last }
+func (c *simConn) isParked() bool {
+	c.mu.Lock()
+	defer c.mu.Unlock()
+	return c.cur != nil && c.cur.st.parked
+}
 
 var errConnClosed = errors.New("sim: connection closed")
 
